@@ -230,6 +230,7 @@ type logRec struct {
 	seq   uint64
 	level string
 	msg   string
+	task  string
 }
 
 type markerKey struct{}
@@ -546,7 +547,7 @@ type simLogger struct{ r *foRun }
 
 func (l simLogger) rec(level, msg string) {
 	zs.Yield("log." + level)
-	l.r.logs = append(l.r.logs, logRec{seq: l.r.e.s.NextSeq(), level: level, msg: msg})
+	l.r.logs = append(l.r.logs, logRec{seq: l.r.e.s.NextSeq(), level: level, msg: msg, task: l.r.e.s.CurID()})
 }
 func (l simLogger) Error(_ context.Context, msg string, _ ...interface{}) { l.rec("error", msg) }
 func (l simLogger) Debug(_ context.Context, msg string, _ ...interface{}) { l.rec("debug", msg) }
